@@ -204,7 +204,7 @@ class HostKeyTest:
                     hostkey_min_good = cakey_min_good = 3072
                     hostkey_min_warn = cakey_min_warn = 2048
                     hostkey_warn_str = cakey_warn_str = HostKeyTest.TWO2K_MODULUS_WARNING
-                    if host_key_type.startswith('ssh-ed25519') or host_key_type.startswith('ecdsa-sha2-nistp'):
+                    if host_key_type.startswith('ssh-ed25519') or host_key_type.startswith('ssh-ed448') or host_key_type.startswith('ecdsa-sha2-nistp'):
                         hostkey_min_good = 256
                         hostkey_min_warn = 224
                         hostkey_warn_str = HostKeyTest.SMALL_ECC_MODULUS_WARNING
